@@ -134,6 +134,7 @@ structure Rep (o : Opts) (m : HMap) (w : World) (s : Store.Store) (last : Option
   nch : m.nCh = w.chs.length
   nlh : m.nLh = w.lhs.length
   ch : ∀ p h, m.ch p = some h → ∃ t e, ContAt (absS s.db) p t ∧ w.chs.getD h none = some e ∧ e.cif = 0 ∧ e.h.id = t
+  hasH : ∀ p t, ContAt (absS s.db) p t → ∃ h, m.ch p = some h
   open_ : ∀ p, lastPath last = some p → ∃ l names t e che, m.lh p = some (l, names) ∧ ContAt (absS s.db) p t ∧
       w.lhs.getD l none = some e ∧ e.cif = 0 ∧ w.chs.getD e.ch none = some che ∧ che.cif = 0 ∧ e.h.cid = t ∧
       e.h.category = none ∧ OpenLoop o (absS s.db) t e.h.loopNum names
@@ -243,7 +244,7 @@ theorem rep_mkBlock (o : Opts) (m : HMap) (w : World) (s : Store.Store) (last : 
   have hst := specStep_mkBlock_aw (absS s.db) _ w.chs w.lhs (some (mkName o false code)) len _ hspec
   obtain ⟨hres, hwok', s', hc', hA, hchs', hlhs', hits'⟩ := transfer w s sop _ _ _ _ hr.cifs hr.its hr.wok hin hst
   refine ⟨hin, by rw [hres], s', ?_, by rw [hA, tree_addBlock o _ hr.inv]; rfl⟩
-  refine ⟨hc', hits', hwok', by rw [hA]; exact hinv', ?_, ?_, ?_, ?_⟩
+  refine ⟨hc', hits', hwok', by rw [hA]; exact hinv', ?_, ?_, ?_, ?_, ?_⟩
   · show m.nCh + 1 = _
     rw [hchs', List.length_append, hr.nch]; rfl
   · show m.nLh = _
@@ -262,6 +263,15 @@ theorem rep_mkBlock (o : Opts) (m : HMap) (w : World) (s : Store.Store) (last : 
       · rw [hr.nch]; exact getD_append_new _ _
     · obtain ⟨t, e, hb, he, h0, hid⟩ := hr.ch p h hp
       exact ⟨t, e, contAt_addBlock _ _ p t hb, getD_append_old _ _ _ _ he, h0, hid⟩
+  · intro p t hpt
+    rw [hA] at hpt
+    rw [HMap.ch_cons]
+    split
+    · exact ⟨_, rfl⟩
+    · rename_i hne
+      rcases contAt_addBlock_inv hr.inv (o.norm code) code p t hpt with h1 | h1
+      · exact hr.hasH p t h1
+      · exact absurd (by rw [h1]; simp) hne
   · intro p hp; cases hp
 
 /-- one more save frame -/
@@ -287,7 +297,7 @@ theorem rep_mkFrame (o : Opts) (m : HMap) (w : World) (s : Store.Store) (last : 
   have hst := specStep_mkFrame_aw (absS s.db) _ w.chs w.lhs h e (some (mkName o false code)) len _ he h0 hspec
   obtain ⟨hres, hwok', s', hc', hA, hchs', hlhs', hits'⟩ := transfer w s sop _ _ _ _ hr.cifs hr.its hr.wok hin hst
   refine ⟨hin, by rw [hres], s', ?_, by rw [hA, tree_addFrame o _ hr.inv parent pid hpath]; rfl⟩
-  refine ⟨hc', hits', hwok', by rw [hA]; exact hinv', ?_, ?_, ?_, ?_⟩
+  refine ⟨hc', hits', hwok', by rw [hA]; exact hinv', ?_, ?_, ?_, ?_, ?_⟩
   · show m.nCh + 1 = _
     rw [hchs', List.length_append, hr.nch]; rfl
   · show m.nLh = _
@@ -304,6 +314,16 @@ theorem rep_mkFrame (o : Opts) (m : HMap) (w : World) (s : Store.Store) (last : 
         contAt_addFrame_new pid _ code parent hpath, by rw [hr.nch]; exact getD_append_new _ _, rfl, rfl⟩
     · obtain ⟨t, e', hb, he', h0', hid'⟩ := hr.ch p h' hp
       exact ⟨t, e', contAt_addFrame_old pid _ code p t hb, getD_append_old _ _ _ _ he', h0', hid'⟩
+  · intro p t hpt
+    rw [hA] at hpt
+    rw [HMap.ch_cons]
+    split
+    · exact ⟨_, rfl⟩
+    · rename_i hne
+      rcases contAt_addFrame_inv hr.inv pid hnode.2 (o.norm code) code p t hpt with h1 | ⟨pp, h1, h2⟩
+      · exact hr.hasH p t h1
+      · have : pp = parent := contAt_unique hr.inv pp parent pid h2 hpath
+        exact absurd (by rw [h1, this]; simp) hne
   · intro p hp; cases hp
 
 /-- cif_container_prune -/
@@ -323,11 +343,14 @@ theorem rep_prune (o : Opts) (m : HMap) (w : World) (s : Store.Store) (last : Op
   obtain ⟨hres, hwok', s', hc', hA, hchs', hlhs', hits'⟩ := transfer w s sop _ _ _ _ hr.cifs hr.its hr.wok hin hst
   have htree := tree_of_upd o _ _ hr.inv path t hpath _ hupd
   refine ⟨hin, by rw [hres], s', ?_, ?_⟩
-  · refine ⟨hc', hits', hwok', by rw [hA]; exact hinv', by rw [hchs']; exact hr.nch, by rw [hlhs']; exact hr.nlh, ?_, ?_⟩
+  · refine ⟨hc', hits', hwok', by rw [hA]; exact hinv', by rw [hchs']; exact hr.nch, by rw [hlhs']; exact hr.nlh, ?_, ?_, ?_⟩
     · intro p h' hp
       rw [hA, hchs']
       obtain ⟨t', e', hb, he', h0', hid'⟩ := hr.ch p h' hp
       exact ⟨t', e', contAt_congr hupd.1 hupd.2.1 p t' hb, he', h0', hid'⟩
+    · intro p' t' hpt
+      rw [hA] at hpt
+      exact hr.hasH p' t' (contAt_congr hupd.1.symm hupd.2.1.symm p' t' hpt)
     · intro p hp; cases hp
   · rw [hA, htree]; show _ = updIn o.norm pruneC path _; rw [pruneC_eq]
 
@@ -352,13 +375,16 @@ theorem rep_mkLoop (o : Opts) (m : HMap) (w : World) (s : Store.Store) (last : O
   obtain ⟨hres, hwok', s', hc', hA, hchs', hlhs', hits'⟩ := transfer w s sop _ _ _ _ hr.cifs hr.its hr.wok hin hst
   have htree := tree_of_upd o _ _ hr.inv path t hpath _ hupd
   refine ⟨hin, by rw [hres], s', ?_, by rw [hA, htree]; rfl⟩
-  refine ⟨hc', hits', hwok', by rw [hA]; exact hinv', by rw [hchs']; exact hr.nch, ?_, ?_, ?_⟩
+  refine ⟨hc', hits', hwok', by rw [hA]; exact hinv', by rw [hchs']; exact hr.nch, ?_, ?_, ?_, ?_⟩
   · show m.nLh + 1 = _
     rw [hlhs', List.length_append, hr.nlh]; rfl
   · intro p h' hp
     rw [hA, hchs']
     obtain ⟨t', e', hb, he', h0', hid'⟩ := hr.ch p h' hp
     exact ⟨t', e', contAt_congr hupd.1 hupd.2.1 p t' hb, he', h0', hid'⟩
+  · intro p' t' hpt
+    rw [hA] at hpt
+    exact hr.hasH p' t' (contAt_congr hupd.1.symm hupd.2.1.symm p' t' hpt)
   · intro p hp
     have hpp : p = path := by simpa [lastPath] using hp.symm
     subst hpp
@@ -438,11 +464,14 @@ theorem rep_addPkt (o : Opts) (m : HMap) (w : World) (s : Store.Store) (last : O
   obtain ⟨hres, hwok', s', hc', hA, hchs', hlhs', hits'⟩ := transfer w s sop _ _ _ _ hr.cifs hr.its hr.wok hin hst
   have htree := tree_of_upd o _ _ hr.inv path t hpath _ hupd
   refine ⟨hin, by rw [hres], s', ?_, by rw [hA, htree]; rfl⟩
-  refine ⟨hc', hits', hwok', by rw [hA]; exact hinv', by rw [hchs']; exact hr.nch, by rw [hlhs']; exact hr.nlh, ?_, ?_⟩
+  refine ⟨hc', hits', hwok', by rw [hA]; exact hinv', by rw [hchs']; exact hr.nch, by rw [hlhs']; exact hr.nlh, ?_, ?_, ?_⟩
   · intro p h' hp
     rw [hA, hchs']
     obtain ⟨t', e', hb, he', h0', hid'⟩ := hr.ch p h' hp
     exact ⟨t', e', contAt_congr hupd.1 hupd.2.1 p t' hb, he', h0', hid'⟩
+  · intro p' t' hpt
+    rw [hA] at hpt
+    exact hr.hasH p' t' (contAt_congr hupd.1.symm hupd.2.1.symm p' t' hpt)
   · intro p hp
     have hpp : p = path := by simpa [lastPath] using hp.symm
     subst hpp
@@ -467,11 +496,14 @@ theorem rep_setVal (o : Opts) (m : HMap) (w : World) (s : Store.Store) (last : O
   obtain ⟨hres, hwok', s', hc', hA, hchs', hlhs', hits'⟩ := transfer w s sop _ _ _ _ hr.cifs hr.its hr.wok hin hst
   have htree := tree_of_upd o _ _ hr.inv path t hpath _ hupd
   refine ⟨hin, by rw [hres], s', ?_, by rw [hA, htree]; show _ = updIn o.norm (setValueC o n v) path _; rw [setValueC_eq]⟩
-  refine ⟨hc', hits', hwok', by rw [hA]; exact hinv', by rw [hchs']; exact hr.nch, by rw [hlhs']; exact hr.nlh, ?_, ?_⟩
+  refine ⟨hc', hits', hwok', by rw [hA]; exact hinv', by rw [hchs']; exact hr.nch, by rw [hlhs']; exact hr.nlh, ?_, ?_, ?_⟩
   · intro p h' hp
     rw [hA, hchs']
     obtain ⟨t', e', hb, he', h0', hid'⟩ := hr.ch p h' hp
     exact ⟨t', e', contAt_congr hupd.1 hupd.2.1 p t' hb, he', h0', hid'⟩
+  · intro p' t' hpt
+    rw [hA] at hpt
+    exact hr.hasH p' t' (contAt_congr hupd.1.symm hupd.2.1.symm p' t' hpt)
   · intro p hp; cases hp
 
 /-- **one recorded call** made in a state that meets what the parser side proves of every call (`docOk`, `wf`) and is `covered`:
@@ -604,6 +636,11 @@ theorem rep_start (o : Opts) : Rep o {} (Store.step {} .cifNew).1 {} none where
   nch := rfl
   nlh := rfl
   ch := by intro p h hp; cases hp
+  hasH := by
+    intro p t h
+    cases p with
+    | nil => cases h
+    | cons k q => obtain ⟨b, hb, _⟩ := h; cases hb
   open_ := by intro p hp; cases hp
 
 /-- **a whole parse into a new CIF — EVERY parse**: the recorded calls, translated (`storeOps`) and run through the store model from the
@@ -649,5 +686,178 @@ theorem parse_store_sim_from (o : Opts) (pol : Lexer.Policy) (units : Str) (m : 
     (fun k op hk => trace_calls_docOk o pol (absS s.db).tree units hokr k op hk) (storeTrace_wf o pol (absS s.db).tree units) hcov hso
   refine ⟨hin, hall, hr'.wok, s', hr'.cifs, ?_⟩
   rw [← Store.absS_tree, ht', parse_replay]
+
+/-- a path that resolves in the tree has a handle in the translation table -/
+theorem ch_of_res (o : Opts) (m : HMap) (w : World) (s : Store.Store) (last : Option SOp) (hr : Rep o m w s last) (path : Path)
+    (hres : ResL o.norm path (absS s.db).tree) : ∃ h, m.ch path = some h := by
+  obtain ⟨t, ht⟩ := res_cont o (absS s.db) hr.inv path hres
+  exact hr.hasH path t ht
+
+/-- `rep_step` with the translation: a call whose container exists (`SOp.resOk`) has a translation -/
+theorem rep_step' (o : Opts) (m : HMap) (w : World) (s : Store.Store) (last : Option SOp) (op : SOp)
+    (hr : Rep o m w s last) (hokr : OkR o (absS s.db).tree) (hdoc : op.docOk o (absS s.db).tree) (hwf : op.wf)
+    (hres : op.resOk o (absS s.db).tree) (hcov : covered last op = true) :
+    ∃ sop m', storeOp o m op = some (sop, m') ∧ Store.inContract w sop = true ∧ (Store.step w sop).2.rc = some CIF_OK ∧
+      ∃ s', Rep o m' (Store.step w sop).1 s' (some op) ∧ (absS s'.db).tree = op.apply o (absS s.db).tree := by
+  have key : ∀ sop m', storeOp o m op = some (sop, m') → ∃ sop m', storeOp o m op = some (sop, m') ∧
+      Store.inContract w sop = true ∧ (Store.step w sop).2.rc = some CIF_OK ∧
+      ∃ s', Rep o m' (Store.step w sop).1 s' (some op) ∧ (absS s'.db).tree = op.apply o (absS s.db).tree :=
+    fun sop m' hso => ⟨sop, m', hso, rep_step o m w s last op sop m' hr hokr hdoc hwf hcov hso⟩
+  cases op with
+  | mkBlock code len => exact key _ _ rfl
+  | mkFrame parent code len =>
+    obtain ⟨h, hm⟩ := ch_of_res o m w s last hr parent hres
+    exact key _ _ (by simp only [storeOp, hm]; rfl)
+  | setVal path n v =>
+    obtain ⟨h, hm⟩ := ch_of_res o m w s last hr path hres
+    exact key _ _ (by simp only [storeOp, hm]; rfl)
+  | mkLoop path names =>
+    obtain ⟨h, hm⟩ := ch_of_res o m w s last hr path hres
+    exact key _ _ (by simp only [storeOp, hm]; rfl)
+  | prune path =>
+    obtain ⟨h, hm⟩ := ch_of_res o m w s last hr path hres
+    exact key _ _ (by simp only [storeOp, hm]; rfl)
+  | addPkt path vals =>
+    have hlast : lastPath last = some path := by simpa [covered] using hcov
+    obtain ⟨l, names, _, _, _, hm, _⟩ := hr.open_ path hlast
+    exact key _ _ (by simp only [storeOp, hm]; rfl)
+
+/-- `run_sim` with the translation: the trace of calls whose containers exist HAS a translation -/
+theorem run_sim' (o : Opts) : ∀ (tr : List SOp) (m : HMap) (w : World) (s : Store.Store) (last : Option SOp),
+    Rep o m w s last →
+    (∀ k : Nat, OkR o ((tr.take k).foldl (fun c op => op.apply o c) (absS s.db).tree)) →
+    (∀ (k : Nat) (op : SOp), tr[k]? = some op → op.docOk o ((tr.take k).foldl (fun c op => op.apply o c) (absS s.db).tree)) →
+    (∀ (k : Nat) (op : SOp), tr[k]? = some op → op.resOk o ((tr.take k).foldl (fun c op => op.apply o c) (absS s.db).tree)) →
+    (∀ op ∈ tr, op.wf) → coveredFrom last tr = true → ∃ sops, storeOpsFrom o m tr = some sops
+  | [], m, w, s, last, _, _, _, _, _, _ => ⟨[], rfl⟩
+  | op :: tr, m, w, s, last, hr, hokr, hdoc, hres, hwf, hcov => by
+    simp only [coveredFrom, Bool.and_eq_true] at hcov
+    obtain ⟨sop, m1, hso, _, _, s1, hr1, ht1⟩ := rep_step' o m w s last op hr (hokr 0) (hdoc 0 op rfl) (hwf op List.mem_cons_self)
+      (hres 0 op rfl) hcov.1
+    obtain ⟨sops', hs'⟩ := run_sim' o tr m1 (Store.step w sop).1 s1 (some op) hr1
+      (fun k => by
+        have := hokr (k + 1)
+        rw [ht1]
+        simpa [List.take_succ_cons, List.foldl_cons] using this)
+      (fun k op' hk => by
+        have := hdoc (k + 1) op' (by simpa using hk)
+        rw [ht1]
+        simpa [List.take_succ_cons, List.foldl_cons] using this)
+      (fun k op' hk => by
+        have := hres (k + 1) op' (by simpa using hk)
+        rw [ht1]
+        simpa [List.take_succ_cons, List.foldl_cons] using this)
+      (fun op' h' => hwf op' (List.mem_cons_of_mem _ h')) hcov.2
+    exact ⟨sop :: sops', by simp only [storeOpsFrom, hso, hs', Option.map_some]⟩
+
+/-- **the trace of EVERY parse into a new CIF has a translation into a store history**: every call finds the handle its container got
+    (`trace_paths_resolve`) -/
+theorem storeOps_total (o : Opts) (pol : Lexer.Policy) (units : Str) : ∃ ops, storeOps o (storeTrace o pol [] units) = some ops := by
+  have hcov := coveredFrom_of_shaped _ none (trace_shaped o pol [] units)
+  have hokr : OkR o ([] : Cif) := ⟨⟨by simp [normCodes], by simp [OkCs]⟩, by simp [RectCif, RectCs]⟩
+  obtain ⟨sops, hs⟩ := run_sim' o (storeTrace o pol [] units) {} (Store.step {} .cifNew).1 {} none (rep_start o)
+    (fun k => trace_prefix_okR o pol [] units hokr k)
+    (fun k op hk => trace_calls_docOk o pol [] units hokr k op hk)
+    (fun k op hk => trace_paths_resolve o pol [] units k op hk)
+    (storeTrace_wf o pol [] units) hcov
+  exact ⟨Store.Op.cifNew :: sops, by unfold storeOps; rw [hs]; rfl⟩
+
+theorem coveredFrom_take : ∀ (tr : List SOp) (last : Option SOp) (j : Nat), coveredFrom last tr = true → coveredFrom last (tr.take j) = true
+  | [], _, _, _ => by simp [coveredFrom]
+  | _ :: _, _, 0, _ => rfl
+  | op :: r, last, j + 1, h => by
+    simp only [coveredFrom, Bool.and_eq_true] at h
+    simp only [List.take_succ_cons, coveredFrom, h.1, coveredFrom_take r (some op) j h.2, Bool.and_self]
+
+/-- **every state a parse passes through is represented**: after the first `j` recorded calls (any `j`), translated and run
+    through `Store.step` from the world after cif_create, the world satisfies `Rep` and shows the replay of those `j` calls -/
+theorem prefix_rep (o : Opts) (pol : Lexer.Policy) (units : Str) (j : Nat) :
+    ∃ sops m s last, storeOpsFrom o {} ((storeTrace o pol [] units).take j) = some sops ∧
+      Rep o m (Store.run (Store.step {} .cifNew).1 sops).1 s last ∧
+      (absS s.db).tree = ((storeTrace o pol [] units).take j).foldl (fun c op => op.apply o c) [] := by
+  have hcov := coveredFrom_take _ none j (coveredFrom_of_shaped _ none (trace_shaped o pol [] units))
+  have hokr : OkR o ([] : Cif) := ⟨⟨by simp [normCodes], by simp [OkCs]⟩, by simp [RectCif, RectCs]⟩
+  have hget : ∀ (k : Nat) (op : SOp), ((storeTrace o pol [] units).take j)[k]? = some op →
+      (storeTrace o pol [] units)[k]? = some op ∧ ((storeTrace o pol [] units).take j).take k = (storeTrace o pol [] units).take k := by
+    intro k op hk
+    rw [List.getElem?_take] at hk
+    split at hk
+    · rename_i hlt
+      exact ⟨hk, by rw [List.take_take, Nat.min_eq_left (Nat.le_of_lt hlt)]⟩
+    · cases hk
+  have h1 : ∀ k : Nat, OkR o ((((storeTrace o pol [] units).take j).take k).foldl (fun c op => op.apply o c) (absS ({} : Store.Store).db).tree) := by
+    intro k
+    rw [List.take_take]
+    exact trace_prefix_okR o pol [] units hokr _
+  have h2 : ∀ (k : Nat) (op : SOp), ((storeTrace o pol [] units).take j)[k]? = some op →
+      op.docOk o ((((storeTrace o pol [] units).take j).take k).foldl (fun c op => op.apply o c) (absS ({} : Store.Store).db).tree) := by
+    intro k op hk
+    obtain ⟨hk', he⟩ := hget k op hk
+    rw [he]
+    exact trace_calls_docOk o pol [] units hokr k op hk'
+  have h3 : ∀ (k : Nat) (op : SOp), ((storeTrace o pol [] units).take j)[k]? = some op →
+      op.resOk o ((((storeTrace o pol [] units).take j).take k).foldl (fun c op => op.apply o c) (absS ({} : Store.Store).db).tree) := by
+    intro k op hk
+    obtain ⟨hk', he⟩ := hget k op hk
+    rw [he]
+    exact trace_paths_resolve o pol [] units k op hk'
+  have h4 : ∀ op ∈ (storeTrace o pol [] units).take j, op.wf :=
+    fun op hop => storeTrace_wf o pol [] units op (List.mem_of_mem_take hop)
+  obtain ⟨sops, hs⟩ := run_sim' o _ {} (Store.step {} .cifNew).1 {} none (rep_start o) h1 h2 h3 h4 hcov
+  obtain ⟨_, _, s', m', last', hr', ht'⟩ := run_sim o _ {} (Store.step {} .cifNew).1 {} none sops (rep_start o) h1 h2 h4 hcov hs
+  exact ⟨sops, m', s', last', hs, hr', ht'⟩
+
+/-- the world a parse into a new CIF leaves represents its result: parses can be chained -/
+theorem parse_leaves_rep (o : Opts) (pol : Lexer.Policy) (units : Str) :
+    ∃ sops m s last, storeOpsFrom o {} (storeTrace o pol [] units) = some sops ∧
+      Rep o m (Store.run (Store.step {} .cifNew).1 sops).1 s last ∧ (absS s.db).tree = (parse o pol [] units).cif := by
+  obtain ⟨sops, m, s, last, hs, hr, ht⟩ := prefix_rep o pol units (storeTrace o pol [] units).length
+  rw [List.take_length] at hs ht
+  exact ⟨sops, m, s, last, hs, hr, by rw [ht, parse_replay]⟩
+
+/-- **the value a recorded cif_container_set_value stores is read back identical from the composed state** (property C07, route
+    `parser`), save frames included: in a world that represents the parser's target, after the call, cif_container_get_value on the
+    same container handle under the same name delivers the value — when the item is new (the parser's normal path), and, for an item
+    the container already has, when its loop has a packet -/
+theorem rep_setVal_reads (o : Opts) (m : HMap) (w : World) (s : Store.Store) (last : Option SOp) (path : Path) (n : Str) (v : V) (h : Nat)
+    (hr : Rep o m w s last) (hm : m.ch path = some h) (hwf : (SOp.setVal path n v).wf) (hokr : OkR o (absS s.db).tree)
+    (hcase : ∀ cc, getIn o.norm path (absS s.db).tree = some cc →
+      hasItem o.norm cc (o.norm n) = false ∨
+        ∀ l ∈ cc.loops, (l.names.any fun x => o.norm x == o.norm n) = true → l.packets ≠ []) :
+    let sop := Store.Op.setVal h (some (mkName o true n)) (some v)
+    ∃ amb, (Store.step (Store.step w sop).1 (.getVal h (some (mkName o true n)))).2 =
+      { rc := some (if amb = true then CIF_AMBIGUOUS_ITEM else CIF_OK), out := .value v } := by
+  intro sop
+  obtain ⟨t, e, hpath, he, h0, hid⟩ := hr.ch path h hm
+  have hnode := node_of_cont hr.inv path t hpath
+  obtain ⟨hok, hrect⟩ := cont_facts o (absS s.db) hr.inv path t hpath hokr
+  obtain ⟨A', hspec, hinv', hupd⟩ := sim_setVal o (absS s.db) hr.inv t hnode e.h hid n v hwf.1 hok hrect
+  have hin : Store.inContract w sop = true :=
+    okH_w w s hr.cifs hr.its h e he h0 (by rw [hid]; exact hasContainer_node s t hnode)
+  have hst := specStep_setVal_aw (absS s.db) A' w.chs w.lhs h e _ _ he h0 hspec
+  obtain ⟨hres, hwok', s', hc', hA, hchs', hlhs', hits'⟩ := transfer w s sop _ _ _ _ hr.cifs hr.its hr.wok hin hst
+  obtain ⟨cc, hg, hccl, _⟩ := getIn_cont o (absS s.db) hr.inv path t hpath
+  have hread : ∃ amb, Store.specGetValue A' e.h (some (mkName o true n)) = .ok (v, amb) := by
+    cases hhas : (absS s.db).hasItem t (o.norm n) with
+    | false => exact reads_new o (absS s.db) hr.inv t hnode e.h hid n v hwf.1 hok hrect hhas A' hspec
+    | true =>
+      obtain ⟨y, hym, hyc, hyk, hy⟩ := reads_existing o (absS s.db) hr.inv t e.h hid n v hwf.1 hok hrect hhas
+      apply hy _ A' hspec
+      rcases hcase cc hg with h1 | h1
+      · rw [hasItem_loops o (absS s.db) hr.inv t cc hccl, hhas] at h1; cases h1
+      · have hyL : y.toLoop ∈ cc.loops := by
+          rw [hccl]; exact List.mem_map_of_mem (List.mem_filter.mpr ⟨hym, by simp [hyc]⟩)
+        exact h1 _ hyL (by rw [names_toLoop_any o y (hr.inv.itemNorm y hym)]; exact hyk)
+  obtain ⟨amb, hamb⟩ := hread
+  refine ⟨amb, ?_⟩
+  have he' : (Store.step w sop).1.chs.getD h none = some e := by rw [hchs']; exact he
+  have hnode' : Node (absS s'.db) t := by
+    rw [hA]
+    exact node_of_cont hinv' path t (contAt_congr hupd.1 hupd.2.1 path t hpath)
+  have hin2 : Store.inContract (Store.step w sop).1 (.getVal h (some (mkName o true n))) = true :=
+    okH_w _ s' hc' hits' h e he' h0 (by rw [hid]; exact hasContainer_node s' t hnode')
+  have hst2 := specStep_getVal_aw (absS s'.db) (Store.step w sop).1.chs (Store.step w sop).1.lhs h e _ v amb he' h0 (by rw [hA]; exact hamb)
+  obtain ⟨hres2, _⟩ := transfer (Store.step w sop).1 s' _ _ _ _ _ hc' hits' hwok' hin2 hst2
+  exact hres2
 
 end CifModel.ParserSimF
